@@ -67,8 +67,31 @@ def strategy_(draw, tier):
   return {'nodes': nodes, 'root': len(nodes) - 1, 'pattern': pattern}
 
 
+@st.composite
+def useq_(draw):
+  """A sequence of short-lived *unhashable* callable instances (eq=True dataclasses with
+  __call__) of three classes with different signatures, each configured and built: a cache
+  that identifies such callables by id() would hand a dead instance's signature to a new one."""
+  items = []
+  for _ in range(draw(st.integers(4, 14))):
+    cls = draw(st.sampled_from(['UCallA', 'UCallB', 'UCallC']))
+    if cls == 'UCallA':
+      pos = [draw(st.integers(0, 9))] + ([draw(st.integers(0, 9))] if draw(st.booleans()) else [])
+      kw = {}
+    elif cls == 'UCallB':
+      pos = [draw(st.integers(0, 9))]
+      kw = {'r': draw(st.integers(0, 9))} if draw(st.booleans()) else {}
+      if draw(st.booleans()):
+        kw['q'] = draw(st.integers(0, 9))
+    else:
+      pos = [draw(st.integers(0, 9)) for _ in range(draw(st.integers(0, 3)))]
+      kw = {}
+    items.append({'cls': cls, 'pos': pos, 'kw': kw})
+  return {'kind': 'useq', 'items': items}
+
+
 def strategy(tier):
-  return strategy_(tier)
+  return st.one_of(*([strategy_(tier)] * 15 + [useq_()]))
 
 
 def _features(cfg):
@@ -99,8 +122,34 @@ def _contains_buildable_in_container(cfg):
   return False
 
 
+def check_useq(case, out):
+  from harness.vuni import things
+  out.cls('unhashable_callable_sequence')
+  out.nontrivial = True
+  for i, it in enumerate(case['items']):
+    inst = getattr(things, it['cls'])(k=i)
+    vuni.reset_log()
+    expected = inst(*it['pos'], **it['kw'])
+    try:
+      cfg = fdl.Config(inst, *it['pos'], **it['kw'])
+      view = cfg[:]
+      actual = fdl.build(cfg)
+    except Exception as e:  # pylint: disable=broad-except
+      out.add('build-raises-but-call-formable', exc_kind(e), fiddle_frame(e), 'unhashable-callable',
+              f'item {i} {it}: {e!r}')
+      return out
+    if C.canon(expected) != C.canon(actual):
+      out.add('build-differs-from-direct-call', 'mismatch', '', 'unhashable-callable',
+              f'item {i} {it}: expected {expected!r} actual {actual!r} view {view!r}')
+      return out
+    del inst, cfg, actual, expected
+  return out
+
+
 def check(case):
   out = Outcome()
+  if case.get('kind') == 'useq':
+    return check_useq(case, out)
   notes = []
   try:
     root, _ = recipes.build_recipe(case, notes)
